@@ -40,6 +40,8 @@ pub struct C13Case {
     entropy: u64,
     focus: Focus,
     max_points: u64,
+    /// instruction budget of one run (the deep-recursion member needs a million)
+    max_instr: u64,
 }
 
 const MAX_INSTR: u64 = 6000;
@@ -70,7 +72,7 @@ impl C13Case {
 
     fn complete(&self, w: &mut World, plan: &Plan) -> (Completion, Vec<Tok>) {
         let inspect = if self.inspect { Some("PRINT N%;A;S$") } else { None };
-        let c = run_to_completion(w, "RUN", &self.replies, &self.keys, plan, inspect, MAX_INSTR, 300);
+        let c = run_to_completion(w, "RUN", &self.replies, &self.keys, plan, inspect, self.max_instr, 300);
         let probes = run_probes(w, &probe_lines(&self.prog));
         (c, probes)
     }
@@ -457,6 +459,84 @@ pub fn interrupt_case(rng: &mut Rng, cfg: GenCfg, prop: &'static str, max_points
         entropy: rng.next_u64(),
         focus: Focus::All,
         max_points,
+        max_instr: MAX_INSTR,
+    })
+}
+
+/// Interrupts with the value stack almost full: GOSUB recursion to 65 504 .. 65 530 frames (the
+/// pool holds 65 535), an INPUT at the bottom, so that "at the INPUT wait" and "right after the
+/// reply" are interrupt instants with a nearly full stack; plus the usual enumeration.
+fn deep_case(rng: &mut Rng) -> Box<dyn Case> {
+    let k = 65_504 + rng.below(27) as u32;
+    let d = || Expr::var("D");
+    let lit = |n: u32| Expr::Sng(n as f32);
+    let prog = Program {
+        lines: vec![
+            Line {
+                num: 5,
+                stmts: vec![
+                    Stmt::Gosub(Target::L(1)),
+                    Stmt::Print {
+                        q: false,
+                        items: vec![PItem::E(Expr::Str("DONE".into())), PItem::Semi, PItem::E(d())],
+                    },
+                    Stmt::End,
+                ],
+            },
+            Line {
+                num: 10,
+                stmts: vec![
+                    Stmt::Let {
+                        kw: false,
+                        target: LVal::scalar("D"),
+                        expr: Expr::bin(BinOp::Add, d(), Expr::Int(1)),
+                    },
+                    Stmt::If {
+                        cond: Expr::bin(BinOp::Lt, d(), lit(k)),
+                        goto_form: false,
+                        then: Branch::Stmts(vec![Stmt::Gosub(Target::L(1))]),
+                        els: None,
+                    },
+                ],
+            },
+            Line {
+                num: 15,
+                stmts: vec![Stmt::If {
+                    cond: Expr::bin(BinOp::And, Expr::bin(BinOp::Ge, d(), lit(k)), Expr::bin(BinOp::Eq, Expr::var("F%"), Expr::Int(0))),
+                    goto_form: false,
+                    then: Branch::Stmts(vec![
+                        Stmt::Let {
+                            kw: false,
+                            target: LVal::scalar("F%"),
+                            expr: Expr::Int(1),
+                        },
+                        Stmt::Input {
+                            nocaps: false,
+                            prompt: None,
+                            targets: vec![LVal::scalar("Z"), LVal::scalar("Z$")],
+                        },
+                    ]),
+                    els: None,
+                }],
+            },
+            Line {
+                num: 20,
+                stmts: vec![Stmt::Return],
+            },
+        ],
+    };
+    Box::new(C13Case {
+        prop: "C13",
+        prog,
+        replies: vec!["1".into(), "2,DEEP".into(), "3,X".into()],
+        keys: vec![],
+        layout_member: false,
+        inspect: rng.pct(50),
+        sched_seed: rng.next_u64(),
+        entropy: rng.next_u64(),
+        focus: Focus::All,
+        max_points: 12,
+        max_instr: 3_000_000,
     })
 }
 
@@ -468,6 +548,9 @@ impl Property for C13 {
         "fault_enumeration"
     }
     fn generate(&self, rng: &mut Rng, tier: Tier) -> Box<dyn Case> {
+        if rng.below(400) == 0 {
+            return deep_case(rng);
+        }
         let mut cfg = GenCfg::swarm(rng);
         cfg.tron = false;
         cfg.size = *rng.pick(&[2usize, 3, 4, 6, 8]);
@@ -492,7 +575,7 @@ impl Property for C13 {
         }
     }
     fn rule(&self) -> &'static str {
-        "one evaluation = one generated program (2-25 lines; FOR/WHILE/GOSUB/ON/IF/INPUT/READ/DEF FN/SWAP/MID$=, optional planted runtime error) for which EVERY interrupt instant k in 0..N (N = instructions of the uninterrupted run, up to 700), every INPUT wait, every after-reply instant and (15% of the programs carry a LIST statement) every instant between two listed lines is executed with interrupt()+CONT, STOP and END are inserted at every top-level statement boundary, and 7 quantum schedules are run; distinct = distinct fingerprint of all event logs of the case; non-trivial = the uninterrupted run executed more than 5 VM instructions"
+        "one evaluation = one generated program (2-25 lines; FOR/WHILE/GOSUB/ON/IF/INPUT/READ/DEF FN/SWAP/MID$=, optional planted runtime error) for which EVERY interrupt instant k in 0..N (N = instructions of the uninterrupted run, up to 700), every INPUT wait, every after-reply instant and (15% of the programs carry a LIST statement) every instant between two listed lines is executed with interrupt()+CONT, STOP and END are inserted at every top-level statement boundary, and 7 quantum schedules are run; 1 in 400 evaluations is a GOSUB recursion to 65 504 - 65 530 frames with an INPUT at the bottom (interrupts with the value stack almost full); distinct = distinct fingerprint of all event logs of the case; non-trivial = the uninterrupted run executed more than 5 VM instructions"
     }
     fn assumptions(&self) -> Vec<&'static str> {
         vec![
